@@ -14,7 +14,6 @@ use simcore::case::{random_input, random_rbufs, random_wops, Case, InputSpec, Io
 use simcore::rng::Rng;
 use simcore::run::{Ctx, RunResult};
 use simcore::storage;
-use std::sync::Arc;
 
 pub fn gen(prop: &str, scen: &str, _k: u64, seed: u64, tier: &str) -> Case {
     let rng = Rng::new(seed);
@@ -25,6 +24,26 @@ pub fn gen(prop: &str, scen: &str, _k: u64, seed: u64, tier: &str) -> Case {
     let mut r_ops = rng.fork("ops");
     let mut r_f = rng.fork("faults");
     match scen {
+        "oob.window" => {
+            // the input fills the encoder's window buffer exactly (or a few 64-byte window moves
+            // more) and matches earlier data right up to its last byte, then the stream ends:
+            // the one shape in which match extension looks at the very last byte of the
+            // allocation. Run by the optimised and by the unoptimised (debug profile) binary.
+            optgen::random_format(&mut r_opt, &mut case, &["lzma", "lzma2", "lzma2", "xz", "lzip"], 10000);
+            case.opt.dict = *r_opt.pick(&[4096u32, 4096, 4097, 8192]);
+            case.opt.preset = None;
+            case.opt.unit = None;
+            case.opt.filters.clear();
+            case.opt.nice = *r_opt.pick(&[8u32, 32, 64, 273]);
+            if case.opt.depth > 4 {
+                case.opt.depth = 4;
+            }
+            case.set("len_is_window", 1);
+            case.set("len_delta", *r_in.pick(&[0i64, 0, 0, 0, 64, 128, -1, 1]));
+            case.input = InputSpec::new(*r_in.pick(&["periodic", "periodic", "zero", "const", "text"]), 1000, r_in.next_u64());
+            case.input.p1 = *r_in.pick(&[1u64, 7, 64, 777, 1000]);
+            case.wops = if r_ops.pct(60) { vec![] } else { vec![simcore::case::WOp::W(usize::MAX), simcore::case::WOp::F] };
+        }
         "oob.encode" => {
             optgen::random_format(&mut r_opt, &mut case, &["lzma", "lzma2", "lzma2", "xz", "lzip"], 10000);
             case.opt.dict = *r_opt.pick(&[4096u32, 4096, 4097, 8192, 65536]);
@@ -48,6 +67,16 @@ pub fn gen(prop: &str, scen: &str, _k: u64, seed: u64, tier: &str) -> Case {
             case.wops = random_wops(&mut r_ops, len, true, 16);
             if r_f.pct(25) {
                 case.set("bias_k", r_in.range(1, len as u64 + 8) as i64);
+            }
+            if r_in.pct(12) {
+                // the input fills the window buffer to its very last byte when it is finished,
+                // and the data matches earlier data right up to the end
+                case.set("len_is_window", 1);
+                case.set("len_delta", *r_in.pick(&[0i64, 0, 0, -1, 1, 64, 128, -8]));
+                case.input.class = (*r_in.pick(&["periodic", "const", "zero", "text"])).into();
+                case.input.p1 = *r_in.pick(&[1u64, 2, 3, 7, 64, 1000]);
+                case.wops = if r_ops.pct(60) { vec![] } else { vec![simcore::case::WOp::W(usize::MAX), simcore::case::WOp::F] };
+                case.src_policy = IoPolicy::default();
             }
         }
         _ => {
@@ -77,15 +106,44 @@ pub fn gen(prop: &str, scen: &str, _k: u64, seed: u64, tier: &str) -> Case {
     case
 }
 
+/// Size of the encoder's window buffer for these options (LZEncoder: dictionary + what is kept
+/// before and after + reserve). An input of exactly this length, finished right away, is the
+/// one shape in which the encoder looks at the very last byte of the allocation.
+pub fn window_buffer_size(case: &Case) -> usize {
+    let dict = if case.fmt == "lzip" { case.opt.dict.clamp(4096, 512 << 20) } else { case.opt.dict } as usize;
+    let fast = case.opt.mode == 0;
+    let mut extra_before = if fast { 1 } else { 4096 };
+    if case.fmt == "lzma2" || case.fmt == "xz" {
+        extra_before = extra_before.max((65536usize).saturating_sub(dict));
+    }
+    let extra_after = if fast { 272 } else { 4096 };
+    let reserve = (dict / 2 + (256 << 10)).min(512 << 20);
+    extra_before + dict + extra_after + 273 + reserve
+}
+
 pub fn exec(case: &Case, keep_log: bool) -> RunResult {
     let mut ctx = Ctx::new(keep_log);
-    let data = case.input.gen();
+    let mut spec = case.input.clone();
+    if case.knob("len_is_window") != 0 {
+        // exactly the window buffer (plus a few 64-byte window moves in some runs)
+        spec.len = (window_buffer_size(case) as i64 + case.knob("len_delta")) as usize;
+    }
+    let data = spec.gen();
     ctx.ev("input_len", data.len() as u64);
-    let v = if case.scen == "oob.encode" { encode(case, &data, &mut ctx) } else { decode_hostile(case, &data, &mut ctx) };
+    let g0 = simcore::alloc::guarded_allocations();
+    let v = if case.scen != "oob.decode" { encode(case, &data, &mut ctx) } else { decode_hostile(case, &data, &mut ctx) };
+    simcore::alloc::set_guard(false);
+    ctx.metric("guarded_allocations", simcore::alloc::guarded_allocations() - g0);
     let shadow = lz::verif::take_shadow_failures();
     codec::take_probes(&mut ctx);
     ctx.metric("shadow_assert_failures", shadow);
     ctx.finish(v)
+}
+
+/// Guard pages cost a mapping per large allocation, so only a part of the runs uses them: all
+/// runs that fill the window buffer exactly, and an eighth of the others.
+fn use_guard(case: &Case) -> bool {
+    case.knob("len_is_window") != 0 || case.seed % 8 == 0
 }
 
 fn only_oob(v: Violation) -> Option<Violation> {
@@ -104,18 +162,56 @@ fn encode(case: &Case, data: &[u8], ctx: &mut Ctx) -> Option<Violation> {
         lz::verif::set_pos_bias((0x7FFF_FFFFi64 - cyc - k) as i32);
         ctx.fire("position_jump", 1);
     }
-    let r = encode_sim(case, data);
+    // Guard mode: every allocation the library makes from here on (window buffer, hash tables,
+    // chains/trees, range coder buffers) ends directly in front of an inaccessible page. The
+    // harness's own output buffer is sized beforehand so that it does not grow meanwhile.
+    let sink = simcore::io::SimSink::new(&case.sink_policy, &[]).reserve(data.len() + data.len() / 8 + (128 << 10));
+    let (out, _) = sink.handle();
+    simcore::alloc::set_guard(use_guard(case));
+    let r = simcore::run::guarded(|| codec::encode_to(case, data, sink));
+    simcore::alloc::set_guard(false);
     lz::verif::set_pos_bias(0);
+    let _ = encode_sim;
     ctx.nontrivial = !data.is_empty();
     match r {
-        Err(v) => only_oob(v),
-        Ok(enc) => {
-            ctx.bytes("stream", &enc.bytes);
-            let d = decode(case, &Arc::new(enc.bytes), &IoPolicy::default(), &[], data.len(), data.len() + (1 << 20), false);
+        Err((loc, msg)) => only_oob(simcore::run::classify_panic(writer_component(case), &loc, &msg)),
+        Ok(Err(_)) => None,
+        Ok(Ok(())) => {
+            let bytes = out.lock().unwrap().clone();
+            ctx.bytes("stream", &bytes);
+            let d = guarded_decode(case, bytes, data.len(), data.len() + (1 << 20));
             ctx.ev("end", d.end.tag());
             universal_decode_violation(case, &d).and_then(only_oob)
         }
     }
+}
+
+/// `common::decode` with the guard switched on only while the reader and its buffers are
+/// built and used; the harness's buffers are allocated before.
+fn guarded_decode(case: &Case, stream: Vec<u8>, total: usize, cap: usize) -> Decoded {
+    use simcore::io::{read_all, ReadEnd, SimSource};
+    let src = SimSource::plain(stream);
+    let stats = src.stats();
+    let sizes: Vec<usize> = case.read_sizes().into_iter().map(|s| s.min(1 << 16)).collect();
+    let mut out: Vec<u8> = Vec::with_capacity(cap.min(total * 4 + (4 << 20)) + (1 << 16));
+    simcore::alloc::set_guard(use_guard(case));
+    let r = simcore::run::guarded(|| match codec::make_reader(case, src, total) {
+        Ok(mut rd) => match read_all(&mut rd, &sizes, out.capacity() - (1 << 16), &mut out) {
+            ReadEnd::Eof => End::Eof,
+            ReadEnd::Err(e) => End::Err(e.kind(), e.to_string()),
+            ReadEnd::Overflow => End::Overflow,
+            ReadEnd::Spin => End::Spin,
+        },
+        Err(e) => End::Err(e.kind(), e.to_string()),
+    });
+    simcore::alloc::set_guard(false);
+    let end = match r {
+        Ok(e) => e,
+        Err((l, m)) => End::Panic(l, m),
+    };
+    let st = stats.lock().unwrap().clone();
+    let consumed = st.bytes as usize;
+    Decoded { out, end, stats: st, consumed }
 }
 
 fn decode_hostile(case: &Case, data: &[u8], ctx: &mut Ctx) -> Option<Violation> {
@@ -137,8 +233,12 @@ fn decode_hostile(case: &Case, data: &[u8], ctx: &mut Ctx) -> Option<Violation> 
     ctx.fire("storage_fault", applied);
     ctx.bytes("stream", &stream);
     ctx.nontrivial = applied > 0;
-    let d = decode(case, &Arc::new(stream), &IoPolicy::default(), &[], data.len(), data.len() * 4 + (4 << 20), false);
+    let d = guarded_decode(case, stream, data.len(), data.len() * 4 + (4 << 20));
     ctx.ev("end", d.end.tag());
     ctx.ev("out", d.out.len() as u64);
+    // output beyond the pre-sized buffer is not this check's business
+    if matches!(d.end, End::Overflow) {
+        return None;
+    }
     universal_decode_violation(case, &d).and_then(only_oob)
 }
